@@ -126,6 +126,50 @@ def nd_warm(P):
             pass
 
 
+_STATE = []
+
+
+def _containers(n):
+    seen = set()
+    for mod in (n.puan, n.pg, n.pnd, n.cc, getattr(n, "misc", None)):
+        if mod is None:
+            continue
+        for name, obj in list(vars(mod).items()):
+            if name.startswith("__"):
+                continue
+            if isinstance(obj, (dict, list, set)) and id(obj) not in seen:
+                seen.add(id(obj))
+                yield obj
+            if isinstance(obj, type) and getattr(obj, "__module__", "").startswith("puan"):
+                for an, attr in list(vars(obj).items()):
+                    if an.startswith("__"):
+                        continue
+                    if isinstance(attr, (dict, list, set)) and id(attr) not in seen:
+                        seen.add(id(attr))
+                        yield attr
+
+
+def reset_process_state():
+    """same as sx/env.py::reset_process_state (M12), for the plain interpreter: process-wide containers of the repository's modules back to
+    their import-time content, functools caches emptied: the next observation starts as in a fresh process"""
+    n = ns()
+    if not _STATE:
+        _STATE.append(None)
+        for c in _containers(n):
+            _STATE.append((c, type(c)(c)))
+    for e in _STATE[1:]:
+        c, c0 = e
+        try:
+            if isinstance(c, list):
+                c[:] = c0
+            else:
+                c.clear()
+                c.update(c0)
+        except Exception:   # noqa
+            pass
+    clear_all_caches()
+
+
 def clear_all_caches():
     """same as sx/env.py::clear_all_caches, for the plain interpreter"""
     n = ns()
